@@ -47,7 +47,7 @@ check(
 
 check(
     "C15", "hist",
-    "Seeded search over histories of solve / Save_Iter / folder change / Get_results / Set_Iter / Result(iter=i) / mesh replacement / time-scheme switch / Save / Load_Simu / Mesh.Save+Load_Mesh / scribbling on returned arrays, for Elastic (static and dynamic), Thermal, PhaseField, InElastic, HyperElastic and WeakForms simulations with 1-3 meshes in one history (including meshes with two main-dimension groups, TRI3 + QUAD4, whose group order fixes the element numbering; element-wise results are part of the snapshots), on a simulated disk. Oracle: deep-copied snapshots taken when each iteration was saved (fields, internal variables, mesh digest, named results); after every operation every stored iteration is re-read and compared exactly. A separate fault batch injects EIO/ENOSPC/EACCES on open/write/read and process kills (clean and torn) inside Save_Iter/Save/Get_results/Set_Iter/Load_Simu with the narrowed oracle 'may fail, never wrong data', including restart from what the disk holds.",
+    "Seeded search over histories of solve / Save_Iter / folder change / Get_results / Set_Iter / Result(iter=i) / mesh replacement / time-scheme switch / Save / Load_Simu / Mesh.Save+Load_Mesh / scribbling on returned arrays, for Elastic (static and dynamic), Thermal, PhaseField, InElastic, HyperElastic, WeakForms and Beam (frame with a connection) simulations with 1-3 meshes in one history (including meshes with two main-dimension groups, TRI3 + QUAD4, whose group order fixes the element numbering; element-wise results are part of the snapshots), on a simulated disk. Oracle: deep-copied snapshots taken when each iteration was saved (fields, internal variables, mesh digest, named results); after every operation every stored iteration is re-read and compared exactly. A separate fault batch injects EIO/ENOSPC/EACCES on open/write/read and process kills (clean and torn) inside Save_Iter/Save/Get_results/Set_Iter/Load_Simu with the narrowed oracle 'may fail, never wrong data', including restart from what the disk holds.",
     "Trusted: the snapshot recorder (deep copies through public getters plus the two name-mangled state attributes the property's anchors name: InElastic committed variables, PhaseField history field), pickle, the tmpfs under the simulated disk. Process kill semantics: bytes accepted by write() survive (no power-loss model). Velocity/acceleration are compared after Set_Iter only when the scheme active at restore time stores them. Two open findings are steered around in the random batch and reproduced from their own replay files (known_findings.json).",
     "deterministic simulation with disk-fault and crash injection: seeded op/fault sequences vs snapshot reference model, ddmin-minimised replay files",
     "DESIGN.md section 5, C15",
